@@ -19,13 +19,31 @@ def jobs(tier):
     return js
 
 
+from props import C09 as _c09
+
+RQ = {0: "order-limit", 1: "filter", 2: "parent-lists-children", 3: "child-shows-parent", 4: "parents-by-child-filter", 5: "count-through-relation",
+      6: "children-by-parent-filter", 7: "ordered-list"}
+
+
+def request_jobs(tier):
+    js = []
+    for q in RQ:
+        for private in (0, 1):
+            for idx in ((0, 3) if tier == "quick" else (0, 1, 2, 3)):
+                js.append({"id": f"O4.request.{RQ[q]}.private-{'device' if private else 'user'}.idx{idx}", "func": "VerifH_C10_Request",
+                           "conf": {"q": q, "idx": idx, "private": private}, "_obligation": "O4", "_covers": ["ran", "access-control-consulted"], "unwind": 60})
+    return js
+
+
 PROPERTY = {
     "id": "C10",
     "suites": [{"name": "permissioned", "pkg": "internal/db/fetcher", "files": ["zz_verif_c03.go", "zz_verif_c07.go", "zz_verif_c10.go"],
                 "common": ["intrinsics", "kvmodel", "dagenv"], "jobs": jobs, "unwind": 30,
-                "overrides": {"github.com/sourcenetwork/defradb/client.CborNil": "bytes:f6"}}],
-    "bounds": {"stack (O3)": "the real wrappingFetcher Init/Start/FetchNext over 2 (thorough 3) documents in the key-value model, each active or deleted, showDeleted on or off", "documents in the scan": "2-3 (thorough 4)", "per document": "registered / allowed / IsDocRegistered error / CheckDocAccess error all symbolic", "policy": "present or absent", "identity": "none or present"},
+                "overrides": {"github.com/sourcenetwork/defradb/client.CborNil": "bytes:f6"}},
+               dict(_c09.PROPERTY["suites"][0], name="request", files=["zz_verif_query.go", "zz_verif_c10q.go"], jobs=request_jobs)],
+    "bounds": {"request level (O4)": "2 users, 2 devices, one user or one device unreadable; ages / years / filter constant in a small range; eight request shapes; index sets none and all (thorough: every combination); twin store = the same store without the unreadable document",
+               "stack (O3)": "the real wrappingFetcher Init/Start/FetchNext over 2 (thorough 3) documents in the key-value model, each active or deleted, showDeleted on or off", "documents in the scan": "2-3 (thorough 4)", "per document": "registered / allowed / IsDocRegistered error / CheckDocAccess error all symbolic", "policy": "present or absent", "identity": "none or present"},
     "assumptions": ["the ACP system is a symbolic table (the real local/source-hub ACP is not executed)", "the inner fetcher yields the scan's document ids in order"],
-    "outside_claim": ["every path that does not go through this fetcher: commit-history queries (dagScanNode), time travel, joins, aggregates, subscriptions, update/delete checks in collection.go",
+    "outside_claim": ["commit-history queries (dagScanNode), time travel, subscriptions, update/delete checks in collection.go, grouping and aggregates other than _count",
                       "the ACP engine itself (zanzibar relations)"],
 }
